@@ -87,7 +87,7 @@ def bit_at(bv, idx_bv, n):
     return r
 
 
-def add_memory_env(c, port, name, A, lane, init_byte, Q=3):
+def add_memory_env(c, port, name, A, lane, init_byte, Q=3, min_write_delay=2):
     """environment behind `port` (the DUT is the master of this port).  A: watched address term, lane: watched byte lane
     term (both rigid), init_byte: rigid initial content.  Free inputs expected: port.cmd.ready, port.wdata.ready,
     port.rdata.valid, port.rdata.data."""
@@ -110,6 +110,9 @@ def add_memory_env(c, port, name, A, lane, init_byte, Q=3):
         for i in range(Q):
             occ = ULT(BV(i, cw), cnt(f))
             m = And(occ, (G(f, "we%d" % i) == 1) == want_we, G(f, "sv%d" % i) == 0)
+            if want_we and min_write_delay > 1:
+                # the core's data strobe comes at least min_write_delay cycles after the command was accepted
+                m = And(m, UGE(G(f, "age%d" % i), BV(min_write_delay - 1, 2)))
             sel.append(And(m, Not(found)))
             found = Or(found, m)
         return sel, found
@@ -136,6 +139,15 @@ def add_memory_env(c, port, name, A, lane, init_byte, Q=3):
             return nxt
         for fld in ("we", "hit", "sv"):
             c.ghost("%s.%s%d" % (name, fld, i), 1, 0, mk(fld))
+
+        def age_nxt(f, i=i):
+            inc = lambda a: If_(a == 3, a, a + 1)
+            cur = inc(G(f, "age%d" % i))
+            nx = inc(G(f, "age%d" % (i + 1))) if i + 1 < Q else BV(0, 2)
+            shifted = If_(retire(f), nx, cur)
+            pos = If_(retire(f), cnt(f) - 1, cnt(f))
+            return If_(And(acc(f), pos == i), BV(0, 2), shifted)
+        c.ghost("%s.age%d" % (name, i), 2, 0, age_nxt)
     c.invariant(name + ".queue_range", lambda f: ULE(cnt(f), BV(Q, cw)))
     # memory content of the watched byte
     if port.mode != "read":
